@@ -263,7 +263,14 @@ class Run:
         """Corrupt recorded fields and require TLC to reject each corrupted
         line with the expected check.  mutators: {event: [(fn, expected_prefix)]};
         fn mutates the decoded event in place and returns False if not applicable."""
-        lines = open(chunk, encoding="utf-8").read().splitlines()
+        if isinstance(chunk, (list, tuple)):
+            # self-contained frames: pool the lines of several chunks
+            lines = []
+            for c in chunk:
+                lines += open(c, encoding="utf-8").read().splitlines()
+            chunk = chunk[0]
+        else:
+            lines = open(chunk, encoding="utf-8").read().splitlines()
         out_lines = []
         expect = []          # (lineno, prefix)
         used = {}
@@ -376,6 +383,11 @@ class Run:
         for k in mine:
             n = len(known_hit.get(k["id"], []))
             print("KNOWN-FINDING: property=%s %s [%s; %d occurrence(s) in this run]" % (self.pid, k["what"], k["id"], n))
+        dump = os.environ.get("VERIF_DUMP_REJECTS")
+        if dump:   # development aid: all REJECTs of this run (used to draw up known_findings.json entries by hand)
+            with open(dump, "w", encoding="utf-8") as f:
+                for r in self.rejects:
+                    f.write(json.dumps({"name": r["name"], "key": r["key"]}, ensure_ascii=False) + "\n")
         replay_dir = os.path.join(VERIF, "out", "replay", self.pid)
         shutil.rmtree(replay_dir, ignore_errors=True)
         nviol = 0
